@@ -209,6 +209,8 @@ class BeltStore(Store):
                         
         else:# if not items succeed, belt is empty and succeed immediately
             #if self.accumulation_mode_indicator==False or (self.accumulation_mode_indicator==True and len(self.ready_items)==0):
+            # a non-accumulating belt is stopped while an item waits at its exit: nothing is admitted then
+            if self.accumulation_mode_indicator==True or len(self.ready_items)==0:
                 if len(self.reservations_put) + len(self.items) +len(self.ready_items) < self.capacity:
 
                     self.reservations_put.append(event)  # Add reservation
